@@ -62,11 +62,22 @@ fn bare_allowed(s: &str) -> bool {
 			.all(|c| matches!(c, b'A'..=b'Z' | b'a'..=b'z' | b'0'..=b'9' | b'_' | b'-'))
 }
 
+/// JSON escaping is a valid TOML basic string except for U+007F, which TOML forbids unescaped
+fn escape_string_toml_buf(s: &str, buf: &mut String) {
+	if s.contains('\u{7f}') {
+		let mut tmp = String::new();
+		escape_string_json_buf(s, &mut tmp);
+		buf.push_str(&tmp.replace('\u{7f}', "\\u007f"));
+	} else {
+		escape_string_json_buf(s, buf);
+	}
+}
+
 fn escape_key_toml_buf(key: &str, buf: &mut String) {
 	if bare_allowed(key) {
 		buf.push_str(key);
 	} else {
-		escape_string_json_buf(key, buf);
+		escape_string_toml_buf(key, buf);
 	}
 }
 
@@ -101,7 +112,7 @@ fn manifest_value(
 		Val::Bool(true) => buf.push_str("true"),
 		Val::Bool(false) => buf.push_str("false"),
 		Val::Str(s) => {
-			escape_string_json_buf(&s.clone().into_flat(), buf);
+			escape_string_toml_buf(&s.clone().into_flat(), buf);
 		}
 		Val::Num(n) => write!(buf, "{n}").unwrap(),
 		#[cfg(feature = "exp-bigint")]
